@@ -28,7 +28,7 @@ ASSUMPTIONS = [
     "reference engine and laws as in C01",
 ]
 TIMEOUT = {"quick": 20, "thorough": 150}
-DEADLINE = {"quick": 85, "thorough": 1500}
+DEADLINE = {"quick": 85, "thorough": 1000}
 MIN_DECIDING = {"quick": 15, "thorough": 200}
 NCASES = {"quick": 110, "thorough": 2000}
 
